@@ -310,6 +310,9 @@ pub fn eval_node<F: FnMut(&GraphColoredVertices, &str)>(
                         steady_states,
                         progress_callback,
                     );
+                    // only the part of the child's result inside the restricted unit set is meaningful
+                    // (sets of propositions, wild-cards, or pre-images do not respect the var's domain)
+                    let child_eval = child_eval.intersect(restricted_graph.unit_colored_vertices());
                     progress_callback(
                         &empty_set,
                         &format!("Evaluating operator `{op}` with restricted domain `{domain}`."),
